@@ -2477,6 +2477,8 @@ class Convex:
         cond2 = not sp.issparse(other)
         if cond1 and cond2:
             raise TypeError('The expression is not supported.')
+        if isinstance(other, (Vars, Affine)) and other.model is not self.model:
+            raise ValueError('Models mismatch.')
 
         affine_in = self.affine_in
         affine_out = self.affine_out + other
@@ -2714,6 +2716,9 @@ class PerspConvex(Convex):
                  multiplier=1):
 
         super().__init__(affine_in, affine_out, xtype, sign, multiplier)
+        if (isinstance(affine_scale, (Vars, Affine)) and
+                affine_scale.model is not affine_in.model):
+            raise ValueError('Models mismatch.')
         self.affine_scale = affine_scale
 
     def __repr__(self):
